@@ -1,6 +1,7 @@
 #!/bin/sh
 # regenerate every evidence file from the unchanged tree (quick tier), sequentially
 cd "$(dirname "$0")"
+mkdir -p build
 rc_all=0
 for id in C01 C02 C03 C04 C05 C06 C07 C08 C09 C10 C11 C12 C13 C14 C15 C16 C17 C18 C19; do
 	start=$(date +%s)
